@@ -77,8 +77,18 @@ def ops : List (String × Handler) := [
       let recs ← jList jRec (← arg j "records")
       let s ← jStrategy (← arg j "strategy")
       let high ← jBool (← arg j "high_memory")
-      let d := if high then groupAll recs else groupMulti recs
-      pure (ofList (fun kv => Json.arr #[ofNat kv.1, ofOptRecs kv.2]) (resolveAll s d))),
+      let pickled ← (do match j.getObjVal? "pickled" with
+                        | .ok v => jBool v
+                        | .error _ => pure false)
+      let d? : Option (List (Nat × List Rec)) :=
+        if high then (if pickled then groupAllPickled recs else some (groupAll recs)) else some (groupMulti recs)
+      match d? with
+      | none => pure (jErr "error")
+      | some d => pure (ofList (fun kv => Json.arr #[ofNat kv.1, ofOptRecs kv.2]) (resolveAll s d))),
+  ("pickle_roundtrip", fun j => do
+      match pickleRoundTrip (← jRec (← arg j "rec")) with
+      | none => pure (jErr "error")
+      | some r => pure (ofRec r)),
   ("verdicts_for", fun j => do
       let d ← jDict (← arg j "resolved")
       pure (ofList (fun kv => Json.arr #[ofNat kv.1, ofList ofRec kv.2]) (verdictsFor (← jNat (← arg j "chr")) d))),
@@ -105,6 +115,8 @@ def ops : List (String × Handler) := [
   ("tables", fun _ => do
       pure (Json.mkObj [("cli_multimap_strategy", ofStr cli_multimap_strategy),
                         ("basic_eq_fields", ofList ofStr basic_eq_fields),
+                        ("basic_getstate_layout", ofList ofStr basic_getstate_layout),
+                        ("basic_setstate_layout", ofList (fun p => Json.arr #[ofStr p.1, ofNat p.2]) basic_setstate_layout),
                         ("suspended_assigned_at", ofList ofStr suspended_assigned_at),
                         ("loader_skips_suspended", ofBool loader_skips_suspended),
                         ("loader_skips_missing", ofBool loader_skips_missing),
